@@ -25,6 +25,8 @@ CYCLES = {
     "chan-pingpong": "(let [c (ev/chan)] (ev/spawn (ev/give c 1)) (ev/take c))",
     "chan-buffered-drop": "(let [c (ev/chan 4)] (ev/give c @[1 2 3]) nil)",
     "thread-chan-pingpong": "(let [c (ev/thread-chan 1)] (ev/spawn-thread (ev/give c :x)) (ev/take c))",
+    "thread-chan-survives-gc": "(let [c (ev/thread-chan 2) l (ev/lock)] (ev/give c @[1 2 3]) (gccollect) (ev/take c) (ev/acquire-lock l) (ev/release-lock l))",
+    "thread-chan-to-thread-and-drop": "(let [c (ev/thread-chan 1)] (ev/thread (fn [&] (ev/give c (string/repeat \"m\" 100)))) (gccollect) (ev/take c))",
     "thread-call": "(ev/thread (fn [&] (+ 1 2)))",
     "thread-call-n": "(do (ev/thread (fn [&] (ev/sleep 0.001)) nil :n) nil)",
     "thread-weak-table": "(ev/thread (fn [&] (def t (table/weak 4)) (put t :a @[1]) (def a (array/weak 2)) nil))",
